@@ -3,10 +3,35 @@ from .. import core, pure
 
 
 def cfg(maxfiles, maxlen, export, names="MCNames"):
-    inv = "NoOverlap Injective RoundTrip UnknownOutside NextAbove" + (" Export" if export else "")
+    inv = "NoOverlap Injective RoundTrip UnknownOutside NextAbove RefinesAbs" + (" Export" if export else "")
     return ("CONSTANTS Names <- %s  Contents <- AllContents  MaxFiles = %d  MaxLen = %d  Alphabet = {97, 10, 13}  DoExport = %s\n"
-            "INIT Init\nNEXT Next\nINVARIANTS %s\nPROPERTY Monotone\nCHECK_DEADLOCK FALSE\n" % (
+            "INIT Init\nNEXT Next\nINVARIANTS %s\nPROPERTIES Monotone RefinesAbsStep\nCHECK_DEADLOCK FALSE\n" % (
                 names, maxfiles, maxlen, str(export).upper(), inv))
+
+
+def apalache_obligations(r):
+    """unbounded part: the positional skeleton FileSetAbs has an inductive invariant that implies NoOverlap / Injective /
+    NextAbove for files of any length (Apalache; the sequence of files is bounded by Gen(6) in the inductive step)"""
+    import os
+    import subprocess
+    d = r._specdir()
+    obs = [("Init => IndInv", ["--init=Init", "--inv=IndInv", "--length=0"]),
+           ("IndInv /\\ Next => IndInv'", ["--init=IndInit", "--inv=IndInv", "--length=1"]),
+           ("IndInv => NoOverlap /\\ NextAbove", ["--init=IndInit", "--inv=Safe", "--length=0"]),
+           ("IndInv => Injective", ["--init=IndInit", "--inv=Injective", "--length=0"])]
+    out = []
+    for name, args in obs:
+        od = os.path.join(r.scratch, "apa-%d" % len(out))
+        try:
+            p = subprocess.run(["apalache-mc", "check", "--out-dir=" + od] + args + ["FileSetAbsInd.tla"], cwd=d, stdout=subprocess.PIPE,
+                               stderr=subprocess.STDOUT, text=True, timeout=600)
+        except (subprocess.TimeoutExpired, OSError) as e:
+            raise core.Inconclusive("apalache did not finish: %s" % e)
+        ok = "EXITCODE: OK" in p.stdout
+        out.append({"obligation": name, "discharged": ok})
+        if not ok:
+            raise core.Inconclusive("apalache could not discharge '%s':\n%s" % (name, p.stdout[-1500:]))
+    return out
 
 
 def run(r):
@@ -16,6 +41,7 @@ def run(r):
     plans = [(2, 3, "2x3")] + ([(3, 2, "3x2"), (2, 4, "2x4")] if th else [(3, 1, "3x1")])
     for (mf, ml, tag) in plans:
         res.append(pure.model_to_code(r, "FileSetMC", cfg(mf, ml, True), "fileset", tag))
+    r.extra["apalache"] = apalache_obligations(r)
     tr = pure.code_to_model(r, "fileset", "FileSetTrace", "FileSetTrace.cfg", 8 if th else 3,
                             dict(n=12 if th else 5, maxfiles=8, maxlen=300 if th else 120),
                             lambda x: x.get("ev") == "reset",
@@ -27,7 +53,8 @@ def run(r):
     r.rule = ("model->code: every file set of the bounded families, every global position 0..next+1 and every file offset queried on fresh real "
               "file sets in ascending and descending order (cold / warm line tables); code->model: random file sets of up to 8 files of up to "
               "300 bytes with queries interleaved with AddFile. distinct_nontrivial = file sets with more than one file")
-    r.assumptions = ["bounded contents over {a, LF, CR} for the exhaustive part", "file names without ':'"]
+    r.assumptions = ["bounded contents over {a, LF, CR} for the exhaustive part", "file names without ':'",
+                     "the Apalache obligations cover the positional skeleton (FileSetAbs) for files of any length and up to 6 files in the inductive step; TLC checks on every explored state that FileSet refines it"]
 
 
 def replay(r, case):
